@@ -12,7 +12,11 @@
       resolved: `finish` sorts stably, so the order of equal counts is the order of the enumeration);
     * fuel: `for len(s.Top) >= capacity { s.resample(rng) }` is not structurally terminating (a round may evict
       nothing); the list of per-round draw functions is the fuel and `none` means "still looping".
-  Numbers are `Int` (exact domain, DESIGN §4.1); host tags, sum of squares, t-digest and HLL are not modelled.
+  Numbers are dyadic rationals held as scaled `Int`s (exact domain, DESIGN §4.1): counts and values in units of
+  1/`unit` = 1/16, sums (value·count) in units of 1/`unit`² = 1/256.  Everything the code does with them is linear, so
+  the scale is visible only where a count meets an unscaled integer: the sample factor and the draws (`evicts`,
+  `redirects`) and the implicit count 1 / divisor len(values) of ApplyValues.  Host tags, sum of squares, t-digest and
+  HLL are not modelled.
   `1 << sampleFactorLog2` is a mathematical power of two here (the Go `int` overflows at 2^63: not modelled).
 -/
 import SH.Model.Core
@@ -34,6 +38,9 @@ def Key.isEmpty (k : Key) : Bool := decide (k.i = 0) && k.s.isEmpty
 def Key.normalize (k : Key) : Key := if k.i ≠ 0 then { k with s := [] } else k
 
 /-! ### aggregates (data_model.ItemValue without host tags and sum of squares) -/
+
+/-- counts and values are integers in units of 1/unit -/
+abbrev unit : Int := 16
 
 structure Agg where
   cnt : Int := 0
@@ -74,17 +81,18 @@ def Agg.merge (a b : Agg) : Agg :=
       set := true }
   else { a with cnt := addCnt a.cnt b.cnt }
 
-/-- `tmp.ValueSum *= count; if totalCount != 1 { tmp.ValueSum /= totalCount }` (exact when totalCount divides) -/
-def scaleSum (s c total : Int) : Int := if total ≠ 1 then (s * c) / total else s * c
+/-- `tmp.ValueSum *= count; if totalCount != 1 { tmp.ValueSum /= totalCount }` (exact when totalCount divides);
+    `c` and `total` are scaled by `unit`, the product of the scaled sum with the real count is `s * c / unit` -/
+def scaleSum (s c total : Int) : Int := if total ≠ unit then (s * c) / total else (s * c) / unit
 
 def scaled (t : Agg) (c total : Int) : Agg := if c ≠ total then { t with sum := scaleSum t.sum c total } else t
 
-/-- the temporary of MultiValue.ApplyValues: SimpleItemCounter(count) then addOnlyValue(v, 1) per value -/
-def valuesTmp (vs : List Int) (c : Int) : Agg := vs.foldl (fun t v => t.addOnlyValue v 1) { cnt := c }
+/-- the temporary of MultiValue.ApplyValues: SimpleItemCounter(count) then addOnlyValue(v, 1) per value (count 1 = `unit`) -/
+def valuesTmp (vs : List Int) (c : Int) : Agg := vs.foldl (fun t v => t.addOnlyValue v unit) { cnt := c }
 
 /-- MultiValue.ApplyValues(histogram = nil, values, count, totalCount = len(values), hasPercentiles = false) -/
 def Agg.applyValues (a : Agg) (vs : List Int) (c : Int) : Agg :=
-  if vs.isEmpty then a else a.merge (scaled (valuesTmp vs c) c vs.length)
+  if vs.isEmpty then a else a.merge (scaled (valuesTmp vs c) c (unit * vs.length))
 
 /-- what a caller does with the *MultiValue returned by MapStringTop -/
 inductive Event where
@@ -128,10 +136,11 @@ def effCap (cap : Int) : Nat := if cap < 1 then SH.Gen.C07.defaultStringTopCapac
 
 /-- `s.sampleFactorLog2 != 0 && rng.Float64()*float64(sf) >= count` with rng.Float64() = u / 2^53 -/
 def redirects (sfLog2 : Nat) (u : Nat) (count : Int) : Bool :=
-  sfLog2 != 0 && decide (count * (2 : Int) ^ 53 ≤ (u : Int) * (2 : Int) ^ sfLog2)
+  sfLog2 != 0 && decide (count * (2 : Int) ^ 53 ≤ unit * ((u : Int) * (2 : Int) ^ sfLog2))
 
-/-- resample: `if cnt >= sf {continue}; rv := rng.Intn(sf); if cnt > rv {continue}; fold into tail, delete` -/
-def evicts (sf rv : Int) (a : Agg) : Bool := decide (a.cnt < sf) && decide (a.cnt ≤ rv)
+/-- resample: `if cnt >= sf {continue}; rv := rng.Intn(sf); if cnt > rv {continue}; fold into tail, delete`
+    (`sf` and `rv` are plain integers, the count is scaled) -/
+def evicts (sf rv : Int) (a : Agg) : Bool := decide (a.cnt < unit * sf) && decide (a.cnt ≤ unit * rv)
 
 /-- sf of the next resample round (sampleFactorLog2 is incremented first) -/
 def roundSf (r : Row) : Nat := 2 ^ (r.sfLog2 + 1)
